@@ -1,5 +1,6 @@
 """C12 - padding / format-spec: text as format(), fill styled only when extending."""
 import re
+import sys
 
 from .. import obs as O
 from .. import sgr_model as M
@@ -184,6 +185,12 @@ class FormatContract(Contract):
             return
         if ps.get('zero_led'):
             ctx.grey('zero-led-width')
+            return
+        if ps['width'] is not None and ps['width'] > sys.maxsize:
+            # like str: "Too many decimal digits in format string"
+            ctx.sig('spec:width-beyond-index-size')
+            if not isinstance(exc, ValueError):
+                ctx.violation('huge-width-not-a-ValueError', dict(det, outcome=repr(exc)[:120]), call, mech='format-huge-width')
             return
         G = []
         if ps['ansi']:
